@@ -1,6 +1,6 @@
 (* Properties/C15.v — pinned statements only. *)
 From Boreal Require Import Base.Prelude Base.Res Model.Eval Spec.CondSem Model.EvalCost Model.Scanner
-     Proofs.InterruptProofs Proofs.ScannerProofs Proofs.NoScanInterruptProofs.
+     Proofs.InterruptProofs Proofs.ScannerProofs Proofs.CallbackProofs Proofs.NoScanInterruptProofs.
 
 (* A callback returning Abort at its k-th event: the scan returns CallbackAbort, exactly k events were
    delivered and they are the first k events of the uninterrupted scan, in the same order; if the
@@ -58,6 +58,16 @@ Theorem C15_timeout_prefix_noscan :
     (j <= nchecks (fst (eval_without_matches c Never inp sc (s_after_imports c inp))) -> no_scan_events c inp) ->
     exists later, o_events (run_scan c Never inp sc) = o_events (run_scan c (TimeoutAt j) inp sc) ++ later.
 Proof. exact timeout_prefix_noscan. Qed.
+
+Example C15_noscan_events_example :
+  let c := {| c_full := false; c_nm := false; c_cb := true; c_ev_match := true; c_ev_nomatch := false;
+              c_ev_import := false; c_ev_limit := false; c_direct := true; c_frag_noscan := false |} in
+  can_noscan c = true /\ wf_scanner kf15n_inputs kf15n_scanner = true
+  /\ nchecks (fst (pass1_globals c Never kf15n_inputs kf15n_scanner (s_after_imports c kf15n_inputs))) = 0
+  /\ limit_events c (i_ac kf15n_inputs) = [] /\ (if c_direct c then [] else import_events c kf15n_inputs) = []
+  /\ o_events (run_scan c (TimeoutAt 2) kf15n_inputs kf15n_scanner) = [EvMatch 0]
+  /\ o_events (run_scan c Never kf15n_inputs kf15n_scanner) = [EvMatch 0; EvMatch 1].
+Proof. vm_compute. repeat split. Qed.
 
 (* List API, same configurations: the rules returned with the Timeout error are a prefix of the rules of
    the complete scan, provided the timeout does not fire while global rules are evaluated, in the
